@@ -21,6 +21,7 @@ the model's abstraction (`inExact`), `-` elsewhere.
 import Compress.Util
 import Compress.Flate.Api
 import Compress.Bzip2.ReaderApi
+import Compress.Brotli.Api
 
 namespace Compress.Drv
 open Compress.Util Compress
@@ -62,6 +63,7 @@ def byteKind (src : String) : Bool := src == "byte" || src == "bytefailend"
     the kind `byte` hands `Read` everything that is left, as the model's raw read takes it. -/
 def inExact (typ src cls : String) (latched : Bool) : Bool :=
   cls == "eof" || (typ == "bzip2" && !byteKind src) || (src == "byte" && cls == "nil" && !latched)
+  || (typ == "brotli" && (src == "bytes" || src == "strings" || src == "buffer") && cls == "nil" && !latched)
 
 def inStr (typ src cls : String) (latched : Bool) (v : Nat) : String :=
   if inExact typ src cls latched then toString v else "-"
@@ -161,7 +163,67 @@ def runBzROps (srcK : String) (mk : Nat → Option Src) : Reader → List String
 
 end bzip2
 
-def handleLrm (kv : List (String × String)) : String :=
+section brotli
+open Brotli.Api
+
+/-- brotli's closed marker is `io.ErrClosedPipe`: class `other0`. -/
+def brApiErr : Option AErr → String
+  | none => "nil" | some .eof => "eof" | some .unexpectedEOF => "ueof" | some .corrupted => "corrupt"
+  | some .invalid => "invalid" | some .closed => "other0" | some (.other t) => tagClass t
+
+/-- the composite `R:n` (as for flate, see the header). -/
+def brApiReadN (sd : ByteArray) : Nat → Reader → Nat → List UInt8 → Reader × List UInt8 × Option AErr
+  | 0, r, _, acc => (r, acc, some .corrupted)
+  | fuel+1, r, n, acc =>
+    if acc.length < n then
+      let (r', out, e) := r.read sd (n - acc.length)
+      match e with
+      | some _ => (r', acc ++ out, e)
+      | none => brApiReadN sd fuel r' n (acc ++ out)
+    else
+      let (r', _, e) := r.read sd 0
+      (r', acc, e)
+
+def brApiReadAll (sd : ByteArray) : Nat → Reader → Array UInt8 → Reader × Array UInt8 × Option AErr
+  | 0, r, acc => (r, acc, some .corrupted)
+  | fuel+1, r, acc =>
+    let (r', out, e) := r.read sd 512
+    match e with
+    | some .eof => (r', acc ++ out.toArray, none)
+    | some _ => (r', acc ++ out.toArray, e)
+    | none => brApiReadAll sd fuel r' (acc ++ out.toArray)
+
+def brApiLatched (r : Reader) : Bool := r.err.isSome
+
+def runBrApiOps (sd : ByteArray) (srcK : String) (mk : Nat → Option Src) : Reader → List String → List String → List String
+  | _, [], acc => acc.reverse
+  | r, op :: ops, acc =>
+    match op.splitOn ":" with
+    | ["R", ns] =>
+      let n := (parseNat ns).getD 0
+      let (r', out, e) := brApiReadN sd (n + 2) r n []
+      let c := brApiErr e
+      runBrApiOps sd srcK mk r' ops (s!"R:{outSummary out.toArray}:{c}:{inStr "brotli" srcK c (brApiLatched r') r'.inputOffset}:{r'.outputOffset}" :: acc)
+    | ["A"] =>
+      let (r', out, e) := brApiReadAll sd 100000000 r #[]
+      let c := brApiErr e
+      let ci := if r'.err = some .eof ∧ e = none then "eof" else c
+      runBrApiOps sd srcK mk r' ops (s!"A:{outSummary out}:{c}:{inStr "brotli" srcK ci (brApiLatched r') r'.inputOffset}:{r'.outputOffset}" :: acc)
+    | ["C"] =>
+      let (r', e) := r.close
+      let c := brApiErr e
+      runBrApiOps sd srcK mk r' ops (s!"C:{c}:-:{r'.outputOffset}" :: acc)
+    | ["Z", is] =>
+      match mk ((parseNat is).getD 0) with
+      | some src =>
+        let r' := r.reset src
+        runBrApiOps sd srcK mk r' ops (s!"Z:{r'.inputOffset}:{r'.outputOffset}" :: acc)
+      | none => ("bad-stream" :: acc).reverse
+    | _ => ("bad-op" :: acc).reverse
+
+end brotli
+
+def handleLrm (dict : ByteArray) (kv : List (String × String)) : String :=
   let ops := splitList (lookupD kv "ops" "") '|'
   let srcK := lookupD kv "src" "bytes"
   let fail := parseNat (lookupD kv "fail" "-")
@@ -183,6 +245,14 @@ def handleLrm (kv : List (String × String)) : String :=
       | none => none
     match mk 0 with
     | some src => "|".intercalate (runBzROps srcK mk (Bzip2.ReaderApi.newReader src) ops [])
+    | none => "bad-line"
+  | "brotli" =>
+    let mk (i : Nat) : Option Brotli.Api.Src :=
+      match streams.getD i none with
+      | some d => some { data := d, fault := effFault srcK fail etag d.length }
+      | none => none
+    match mk 0 with
+    | some src => "|".intercalate (runBrApiOps dict srcK mk (Brotli.Api.newReader src) ops [])
     | none => "bad-line"
   | _ => "bad-type"
 
